@@ -50,7 +50,7 @@ def cases(ctx):
                            nontrivial=n >= 2 and (ht != 0 or i > 0 or big), tag='v1', domain=dom)
     for _ in range(ctx.n(50, 2500)):
         tx = G.gen_tx(rng, names, kind='segwit', max_in=4, max_out=4, min_out=1, big=False)
-        muts = [m for m in G.random_mutations(rng, tx, names) if m[0] != 'addin']     # keep the number of inputs (spent outputs list)
+        muts = [m for m in G.random_mutations(rng, tx, names) if m[0] != 'addin' and not (m[0] in ('seq', 'sig') and m[1] >= len(tx.inputs))]     # keep the number of inputs
         if not muts: muts = [('lock', '01020304')]
         line0 = tx_to_line(tx)
         G.apply_mutations(tx, muts)
@@ -74,10 +74,16 @@ def impl(op, a, ctx):
     from bitcoinutils.script import Script
     F = Fields(a)
     tx = line_to_tx(F)
+    muts = None
     if op == 'dig_v1_after':
-        muts = G.parse_muts(F); G.exercise(tx); G.apply_mutations(tx, muts)
+        muts = G.parse_muts(F)
     i = F.nat()
     spks = [Script(s) for s in F.list(F.toks)]; amts = F.list(F.int); ext = F.nat(); leaf = F.toks(); ht = F.nat(); F.done()
+    if muts is not None:
+        G.exercise(tx)
+        try: tx.get_transaction_taproot_digest(i, spks, amts, ext, Script(leaf), sighash=ht)
+        except Exception: pass
+        G.apply_mutations(tx, muts)
     return 'ok ' + hx(tx.get_transaction_taproot_digest(i, spks, amts, ext, Script(leaf), sighash=ht))
 
 
